@@ -248,3 +248,19 @@ prop("C15", shards=16, level="fault_enumeration",
                 "history.",
      level_note="Trusted: harness/iox.MemFile write log and image reconstruction. Crash model: writes reach the medium in issue order, "
                 "a torn write keeps a prefix of its bytes (no reordering, no sector-level corruption).")
+
+prop("C16", shards=16,
+     technique="rapid property-based testing against a reference RCON frame writer; generated login/command sessions over loopback TCP",
+     rule="C16Frames: 1..20 frames with ids/types over int32 (boundaries and random), payloads 0..4086 bytes (empty, all-NUL, non-"
+          "UTF-8, text): WritePacket bytes == reference layout (LE length = 10+len, id, type, payload, 00 00); the concatenation is "
+          "read back frame by frame, exactly consumed, then EOF is an error. C16Length: crafted frames with declared lengths "
+          "{-1,0,1,8,9,10,11,12,4094..4098,65536,MaxInt32,MinInt32, random -20..5000} and a body that is complete / short / long: "
+          "< 10 or > 4096 must be rejected, 10..4096 with a full body accepted with payload length declared-10, truncated bodies "
+          "are errors. C16Session: real DialRCON against ListenRCON(127.0.0.1:0): password pairs (equal, prefix, case-differing, "
+          "trailing space/NUL, empty vs non-empty, non-ASCII, invalid UTF-8), 0..5 command/response exchanges (empty, maximal "
+          "4086-byte, binary), optionally one response sent under a different request id: login succeeds iff the passwords are "
+          "equal; on failure the client gets an error and AcceptLogin returns one; commands and responses arrive verbatim; the "
+          "response under a foreign id is refused. Non-trivial: >= 2 frames or a payload with NUL / extreme length; sessions with "
+          "unequal passwords or >= 1 exchange. Distinct: hash of the JSON case.",
+     level_text="Sampled frames, lengths and sessions; the login matrix is small and densely covered.",
+     level_note="Trusted: the reference frame writer in the test (10 lines), loopback TCP of the sandbox (DialRCON hard-codes TCP).")
